@@ -36,6 +36,12 @@ def envs(k):
     res.append((D, 3))
     D = {nm: v for nm, v in zip(NAMES, [-6, 3.5, 0, 2, 1, -1, 8, 0.5, -3, 2, 7, 1, 0, 5, 4])}
     res.append((D, -2))
+    # falsy-but-not-nullish first operands with truthy, distinct later operands: separates `??` from `||` and from `?:`,
+    # and X()'s null test from a truthiness test
+    D = {nm: v for nm, v in zip(NAMES, [0, 1, 5, False, "", {"$": "nan"}, "", {"$": "-0"}, "", 2, 7, 0, False, "", 9])}
+    res.append((D, 0))
+    D = {nm: v for nm, v in zip(NAMES, [None, 0, 5, U, "", 1, None, 2, U, False, 7, None, "", 3, 0])}
+    res.append((D, None))
     return res
 
 
@@ -65,16 +71,16 @@ def run(chk):
                    "V8 as the meaning of JavaScript (oracle)", "node runner encode/decode", "lexing of the concatenated spellings back into the model's tokens is not proved"]
     chk.assumptions = ["callee functions are pure; throwing cases (instanceof with a non-callable right operand) count as equal when both sides throw",
                        "float literals are carried as Rust-printed text; their value is compared through V8 only"]
-    from . import extractors
-    extractors.regen_all()
-    failed, log = chk.prove("GE.Thm.C02Expr", THEOREMS)
-    for t in failed:
-        chk.violation("proof", f"obligation {t} no longer checks", theorem=t, log=log[-3000:])
-    ok, log = core.lake_build(["gedriver"])
-    if not ok:
-        raise core.BrokenTie("driver-build", log)
+    chk.model_tie([("GE.Thm.C02Expr", THEOREMS)])
 
     trees = eg.enum_depth2()
+    # member reads on every data field (the pool gives each of them a falsy non-nullish value in some environment:
+    # '' / 0 / false / NaN have inherited properties, null / undefined read as undefined)
+    for n in ["a", "b", "c", "d", "f", "o", "l", "n", "x", "y", "z", "p", "q"]:
+        for m in ["length", "constructor", "p"]:
+            trees.append(("smember", ("data", n), m))
+            trees.append(("dmember", ("data", n), ("str", m, '"')))
+            trees.append(("smember", ("dmember", ("data", "z"), ("data", n)), m))
     rng = chk.rng.fork("c03-trees")
     for i in range(600 if quick else 20000):
         trees.append(eg.rand_tree(rng, 3 + (i % 3), 1))
@@ -131,7 +137,7 @@ def run(chk):
 
     # (3) oracle: generated code vs reference evaluation of the intended tree, under V8
     runtime = core.runtime_string()
-    E = envs((2 if quick else 6) + (4 if failed else 0))
+    E = envs((2 if quick else 6) + (0 if core.MODEL_OK and not chk.failed_obligations() else 4))
     nreqs, meta = [], []
     for i in gen_idx:
         t, s, m = cases[i]
